@@ -432,6 +432,28 @@ func genEnv(r *core.Rand) env {
 
 func hx(s string) string { return core.HexS(s) }
 
+// genStatus: the response status code is a dimension of every response-side op: the hop-by-hop clause
+// speaks about every response, so codes an implementation might special-case are all generated
+// (interim and switching 1xx, bodiless 204/205/304, redirects, 407/426, 5xx, unassigned codes).
+func genStatus(r *core.Rand) int {
+	var st int
+	switch r.Intn(4) {
+	case 0:
+		st = 200
+	case 1:
+		st = []int{100, 101, 102, 103, 199, 201, 204, 205, 206, 299, 300, 301, 302, 304, 307, 308, 399}[r.Intn(17)]
+	case 2:
+		st = []int{400, 401, 403, 404, 407, 408, 417, 421, 426, 428, 431, 499, 500, 501, 502, 503, 504, 505, 599}[r.Intn(19)]
+	default:
+		st = r.Range(100, 599)
+	}
+	core.Count(fmt.Sprintf("gen:status:%dxx", st/100))
+	if st == 101 {
+		core.Count("gen:status:101")
+	}
+	return st
+}
+
 func (P) Gen(r *core.Rand, tier string, emit func([]string)) {
 	nStack, nLib, nE2E := 700, 40, 40
 	if tier == "thorough" {
@@ -442,13 +464,15 @@ func (P) Gen(r *core.Rand, tier string, emit func([]string)) {
 		o := genOpts{name: e.name, boundary: e.boundary, loopChance: 3, client: e.client}
 		h := genHeader(r, o)
 		hs := encHeader(h)
+		resHs := encHeader(genHeader(r, genOpts{name: e.name, boundary: e.boundary}))
 		ops := []string{
 			fmt.Sprintf("stackreq %d %d %s %s %s %s %s %s %s", e.major, e.minor, hx(e.name), hx(e.boundary), hx(e.scheme), hx(e.host), hx(e.url), hx(e.remote), hs),
-			fmt.Sprintf("stackres %d %s", r.Pick2(200, r.Pick2(404, 502)), encHeader(genHeader(r, genOpts{name: e.name, boundary: e.boundary}))),
+			fmt.Sprintf("stackres %d %s", genStatus(r), resHs),
 		}
 		// the same header through each member alone
 		ops = append(ops,
 			"hbh "+hs,
+			fmt.Sprintf("hbhres %d %s", genStatus(r), r.Pick(resHs, hs)),
 			fmt.Sprintf("via %d %d %s %s %s", e.major, e.minor, hx(e.name), hx(e.boundary), hs),
 			fmt.Sprintf("fwd %s %s %s %s %s", hx(e.scheme), hx(e.host), hx(e.url), hx(e.remote), hs),
 			"framing "+hs)
